@@ -17,6 +17,7 @@ def run(ctx):
                 ('v2 reply timing', fc.mc_cfg('fib-A-reply', 'v2', 'small', 'reply', 'v2two', 2, 3, 1, reps=ctx.pick(2, 3))),
                 ('legacy routing tree ops<=3', fc.mc_cfg('fib-A-route-l', 'legacy', 'tree', 'route', 'legacy', 2, 0, 3))]
         fc.stage_a(ctx, cfgs)
+        impl_refinement(ctx)
     if 'B' in ctx.stages:
         for front, V in (('v2', 'v2two'), ('legacy', 'legacy')):
             cfgp = fc.mc_cfg('fib-B-route-' + front, front, 'tree', 'route', V, 1, 0, 3, R='Rep_all', invs=[], props=[])
@@ -29,6 +30,113 @@ def run(ctx):
             fc.stage_c(ctx, front, ctx.pick(300, 4000), 40)
     dispatcher_check(ctx)
     dispatcher_traces(ctx)
+
+
+IMPL_INVS = ['NodeHasCallback', 'NoAlias', 'TaskNodeStable', 'NoGarbage', 'CallsResolved', 'CallsOnce', 'NoInternalError',
+             'ReplyBinds', 'AbsTypeOK']
+IMPL_PROPS = ['RefinesInit', 'Refines', 'ReplyInTimeImpl']
+IMPL_WITNESSES = ['W_StaleNode', 'W_ReplacedCalled', 'W_DetachBeforeStart']
+IMPL_ACTIONS = ['IAttach', 'IAttachDup', 'IDetach', 'IDispatch', 'ITaskStart', 'IValReturn', 'IReply', 'ITick', 'IShutdown',
+                'IConnect']
+_ROUTE = ('IAttach', 'IAttachDup', 'IDetach', 'IDispatch', 'ITaskStart', 'IValReturn', 'IShutdown', 'IConnect')
+_REPLY = ('IAttach', 'IDispatch', 'ITaskStart', 'IValReturn', 'IReply', 'ITick', 'IShutdown', 'IConnect')
+# label -> (Front, Names, IntTemplates, MaxInts, MaxT, MaxOps, MaxReplies, Verdicts, Vals), actions that must be taken
+IMPL_CFGS = {
+    'route v2: nested pair, 2 Interests, ops<=3': (('v2', 'nest', 'small', 2, 0, 3, 0, 'two', 'both'), _ROUTE),
+    'reply v2: 2 Interests, MaxT 2, 2 replies': (('v2', 'nest', 'small', 2, 2, 1, 2, 'two', 'yes'), _REPLY),
+    'route legacy: nested pair, 1 Interest, ops<=3': (('legacy', 'nest', 'small', 1, 0, 3, 0, 'leg', 'both'), _ROUTE),
+}
+IMPL_CFGS_THOROUGH = {
+    'full v2: root + nested pair, 2 Interests, MaxT 1, ops<=3, 1 reply': (('v2', 'root3', 'small', 2, 1, 3, 1, 'two', 'both'), ()),
+    'tree v2: 5-name tree, 2 Interests, ops<=3': (('v2', 'tree', 'tree', 2, 0, 3, 0, 'two', 'both'), ()),
+    'tree v2: 5-name tree, 1 Interest, ops<=4': (('v2', 'tree', 'tree', 1, 0, 4, 0, 'two', 'both'), ()),
+    'ints3 v2: nested pair, 3 Interests, all verdicts, MaxT 1, ops<=2, 1 reply': (('v2', 'nest', 'small', 3, 1, 2, 1, 'all', 'both'), ()),
+    'tree legacy: 5-name tree, 1 Interest, ops<=4': (('legacy', 'tree', 'tree', 1, 0, 4, 0, 'leg', 'both'), ()),
+    'full legacy: root + nested pair, 2 Interests, MaxT 1, ops<=3': (('legacy', 'root3', 'small', 2, 1, 3, 0, 'leg', 'both'), ()),
+}
+# switch -> (configuration it is run on, structural invariants one of which must catch it)
+IMPL_BUGS = {
+    'BugDetachKeepsNode': ('route v2: nested pair, 2 Interests, ops<=3', ('NodeHasCallback',)),
+    'BugRelookup': ('route v2: nested pair, 2 Interests, ops<=3', ('CallsResolved',)),
+    'BugSharedReplyVars': ('reply v2: 2 Interests, MaxT 2, 2 replies', ('ReplyBinds', 'ReplyInTimeImpl')),
+    'BugDupOverwrites': ('route v2: nested pair, 2 Interests, ops<=3', ('TaskNodeStable', 'CallsResolved')),
+}
+
+
+def impl_cfg(name, dims, bug='NoBug', invs=IMPL_INVS, props=IMPL_PROPS):
+    import os
+    front, N, I, ints, maxt, ops, reps, V, vals = dims
+    p = os.path.join(tlc.BUILD, name + '.cfg')
+    tlc.write_cfg(p, spec='ISpec',
+                  constants={'Front': '"%s"' % front, 'Names': '<- N_' + N, 'IntTemplates': '<- I_' + I, 'MaxInts': ints,
+                             'MaxT': maxt, 'MaxOps': ops, 'MaxReplies': reps, 'Verdicts': '<- V_' + V, 'Vals': '<- Val_' + vals,
+                             'Bug': '<- ' + bug},
+                  invariants=invs, properties=props)
+    return p
+
+
+def impl_refinement(ctx):
+    """NdnFibImpl (trie of node objects with callback / validator / extra_param, submit_interest tasks holding a node
+    reference, reply closures with captured deadline and token, both front-ends) refines NdnFib and keeps its structural
+    invariants; every action of the structure is taken; the situations it exists for are reachable (witnesses); each
+    defect re-created by a Bug switch must give TLC a counterexample - against Refines alone and against the structural
+    invariants alone (otherwise the design-level check would be blind to that kind of defect)."""
+    from concurrent.futures import ThreadPoolExecutor
+    jobs = []          # (kind, label, expected, thunk); all of these are small and run side by side
+    for k, (label, (dims, need)) in enumerate(IMPL_CFGS.items()):
+        p = impl_cfg('fibimpl-q%d' % k, dims)
+        jobs.append(('check', label, need,
+                     lambda p=p: tlc.run('NdnFibImplMC', p, coverage=True, workers=4, timeout=3000, tag='fibimpl')))
+    for bug, (label, invs) in IMPL_BUGS.items():
+        dims = IMPL_CFGS[label][0]
+        pr = impl_cfg('fibimpl-%s-ref' % bug, dims, bug, invs=[], props=['RefinesInit', 'Refines'])
+        pi = impl_cfg('fibimpl-%s-inv' % bug, dims, bug, invs=IMPL_INVS, props=['ReplyInTimeImpl'])
+        # one worker: breadth-first, the first (shortest) counterexample is the same in every run
+        jobs.append(('bug', bug, ('Refines',), lambda p=pr, b=bug: tlc.run('NdnFibImplMC', p, workers=1, heavy=False, timeout=600, tag='fi-' + b)))
+        jobs.append(('bug', bug, invs, lambda p=pi, b=bug: tlc.run('NdnFibImplMC', p, workers=1, heavy=False, timeout=600, tag='fi-' + b)))
+    wlabel = 'route v2: nested pair, 2 Interests, ops<=3'
+    for w in IMPL_WITNESSES:
+        pw = impl_cfg('fibimpl-%s' % w, IMPL_CFGS[wlabel][0], invs=[w], props=[])
+        jobs.append(('witness', w, (w,), lambda p=pw, w=w: tlc.run('NdnFibImplMC', p, workers=1, heavy=False, timeout=600, tag='fi-' + w)))
+    with ThreadPoolExecutor(6) as ex:
+        results = list(ex.map(lambda j: j[3](), jobs))
+    if not ctx.quick:
+        # the larger configurations one after the other.  Without -coverage (measured: it triples the run time, 26 s ->
+        # 82 s for 2.4e5 states): that every action is taken is established on the small configurations above, which
+        # run in both tiers; a larger configuration must at least be larger than the small ones (not vacuous by a slip
+        # in its constants)
+        floor = max(r.distinct for (k, _, _, _), r in zip(jobs, results) if k == 'check')
+        for k, (label, (dims, need)) in enumerate(IMPL_CFGS_THOROUGH.items()):
+            p = impl_cfg('fibimpl-t%d' % k, dims)
+            r = tlc.run('NdnFibImplMC', p, workers=8, timeout=6000, tag='fibimpl')
+            if not r.violated and r.distinct <= floor:
+                raise tlc.MachineryError('vacuous: NdnFibImpl configuration %s has only %d states' % (label, r.distinct))
+            jobs.append(('check', label, (), None))
+            results.append(r)
+    cov_total = {}
+    for (kind, label, expect, _), r in zip(jobs, results):
+        if kind == 'check':
+            ctx.add_tlc('NdnFibImpl refines NdnFib: ' + label, r)
+            if r.violated:
+                ctx.violation('C04/spec/NdnFibImpl/%s' % r.violated, 'TLC: %s violated in NdnFibImpl (%s)' % (r.violated, label),
+                              {'trace': r.errtrace})
+                continue
+            for a in expect:
+                if r.coverage.get(a, (0, 0))[1] == 0:
+                    raise tlc.MachineryError('vacuous: NdnFibImpl action %s never taken (%s)' % (a, label))
+            for a, (d, t) in r.coverage.items():
+                cov_total[a] = cov_total.get(a, 0) + t
+        elif kind == 'bug':
+            if r.violated not in expect:
+                raise tlc.MachineryError('NdnFibImpl with %s should violate %s but TLC reported %r' % (label, '/'.join(expect), r.violated))
+            ctx.note('NdnFibImpl with %s: TLC counterexample for %s after %d states (expected)' % (label, r.violated, r.generated))
+        elif r.violated != label:
+            raise tlc.MachineryError('NdnFibImpl witness %s not reachable (TLC reported %r)' % (label, r.violated))
+    if not any(v.violated for (k, _, _, _), v in zip(jobs, results) if k == 'check'):
+        for a in IMPL_ACTIONS:
+            if cov_total.get(a, 0) == 0:
+                raise tlc.MachineryError('vacuous: NdnFibImpl action %s never taken in stage A' % a)
+    ctx.extra.setdefault('action_coverage', {}).update({'FibImpl.' + k: v for k, v in cov_total.items() if k in IMPL_ACTIONS})
 
 
 def dispatcher_traces(ctx):
